@@ -150,6 +150,8 @@ fn main() {
                         "plain" => gen_plain(&mut rr, sid, rt, false),
                         "big" => gen_plain(&mut rr, sid, rt, true),
                         "cancel" => gen_cancel(&mut rr, sid, rt),
+                        "hangup" => gen_hangup(&mut rr, sid, rt),
+                        "mux" => gen_mux(&mut rr, sid, rt),
                         o => panic!("unknown mode {o}"),
                     });
                 }
